@@ -671,3 +671,57 @@ Definition admid_ref (mi : minfo) (d : dataset) : res (list Z) :=
       | _, _ => Ok []
       end
   end.
+
+(* ================================================================== further derivations ======= *)
+(* get_ids: list(dataset[id].unique()) — ids in order of first appearance; get_number_of_individuals *)
+Definition ids_impl (d : dataset) : list Z := uniq_from [] (map r_id (ds_rows d)).
+Definition nind_impl (d : dataset) : Z := Z.of_nat (length (ids_impl d)).
+(* reference: the individuals in the order in which the walk meets their first record *)
+Definition ids_walk (d : dataset) : list Z := map r_id (baselines_walk [] (ds_rows d)).
+
+(* get_covariate_baselines: df[covariates + [id]].set_index(id).groupby(id).nth(0) *)
+Definition covbase_impl (ncov : nat) (d : dataset) : res (list (Z * list Z)) :=
+  match ncov with
+  | O => Err IndexError                                  (* typeix['covariate'] *)
+  | _ => Ok (map (fun r => (r_id r, r_covs r)) (baselines_impl d))
+  end.
+Definition covbase_walk (d : dataset) : list (Z * list Z) :=
+  map (fun r => (r_id r, r_covs r)) (baselines_walk [] (ds_rows d)).
+
+Definition set_cmt (r : row) (v : Z) : row :=
+  mkRow (r_lab r) (r_id r) (r_time r) (r_amt r) (r_dv r) (r_evid r) (r_mdv r) v (r_admid r) (r_ss r)
+        (r_addl r) (r_ii r) (r_covs r) (r_other r).
+Definition set_admid (r : row) (v : Z) : row :=
+  mkRow (r_lab r) (r_id r) (r_time r) (r_amt r) (r_dv r) (r_evid r) (r_mdv r) (r_cmt r) v (r_ss r)
+        (r_addl r) (r_ii r) (r_covs r) (r_other r).
+
+(* dataset[name] = series : assignment aligned on the index labels; modelled when the labels of the
+   series are the labels of the frame in the same order (otherwise NaN entries appear) *)
+Definition assign_col (setf : row -> Z -> row) (rows : list row) (ser : list (Z * Z)) : res (list row) :=
+  if zlist_eqb (map fst ser) (map r_lab rows)
+  then Ok (map (fun rv => setf (fst rv) (snd (snd rv))) (combine rows ser))
+  else Err OtherError.
+
+(* add_cmt: if "compartment" not in di.types: dataset = model.dataset.copy(); dataset['CMT'] = get_cmt(model) *)
+Definition add_cmt_impl (mi : minfo) (d : dataset) : res (list row) :=
+  if has_cmt (ds_sch d) then Ok (ds_rows d)
+  else match cmt_impl mi d with
+       | Err e => Err e
+       | Ok cmt => assign_col set_cmt (ds_rows d) cmt
+       end.
+
+(* add_admid: if "admid" not in di.types: dataset['ADMID'] = get_admid(model) *)
+Definition add_admid_impl (mi : minfo) (d : dataset) : res (list row) :=
+  if has_admid (ds_sch d) then Ok (ds_rows d)
+  else match admid_impl mi d with
+       | Err e => Err e
+       | Ok adm => assign_col set_admid (ds_rows d) adm
+       end.
+
+(* the implied doses of one record (reference for expand_additional_doses): dose k at TIME + k*II for
+   k = 0..ADDL, every other field as in the record, flagged EXPANDED for k > 0 *)
+Definition implied (r : row) : list (row * bool) :=
+  map (fun k => (set_time r (r_time r + Z.of_nat k * r_ii r), negb (Nat.eqb k 0)))
+      (seq 0 (S (Z.to_nat (r_addl r)))).
+Definition unlab_e (p : row * bool) : row * bool := (set_lab (fst p) 0, snd p).
+
